@@ -319,16 +319,19 @@ func cmdCheck(args []string) int {
 		return path, out
 	}
 	// group fresh violations by key, replay up to 3 per key
-	perKey := map[string]int{}
+	// per (assertion, site): replay candidates until two are confirmed; candidates that do not
+	// reproduce are reported as spurious only if no candidate of that key reproduced
+	perKeyConfirmed := map[string]int{}
+	perKeySpurious := map[string][]string{}
 	for _, vr := range fresh {
 		key := vr.v.Label + "|" + vr.v.Site
-		perKey[key]++
-		if perKey[key] > 2 {
+		if perKeyConfirmed[key] >= 2 || (perKeyConfirmed[key] >= 1 && len(perKeySpurious[key]) > 0) {
 			continue
 		}
 		path, out := doReplay(vr)
 		switch {
 		case strings.HasPrefix(out, "violated") || strings.HasPrefix(out, "panic") || out == "skipped":
+			perKeyConfirmed[key]++
 			confirmed++
 			exit = 1
 			vioLines = append(vioLines, fmt.Sprintf("VIOLATION property=%s replay=%s", prop, path))
@@ -340,13 +343,24 @@ func cmdCheck(args []string) int {
 				// repository; the counterexample is confirmed by deterministic re-execution of the
 				// real SSA under the recorded schedule
 				confirmed++
+				perKeyConfirmed[key]++
 				exit = 1
 				vioLines = append(vioLines, fmt.Sprintf("VIOLATION property=%s replay=%s", prop, path))
 				fmt.Printf("  violation %s at %s: %s [schedule-dependent; native: %s; re-executed under the recorded schedule %v: reproduced]\n", vr.v.Label, vr.v.Site, vr.v.Msg, out, vr.v.Sched)
 				sampleViolations = append(sampleViolations, map[string]interface{}{"label": vr.v.Label, "site": vr.v.Site, "native": out, "replay": path, "schedule": vr.v.Sched})
 				break
 			}
-			inconclusive = append(inconclusive, fmt.Sprintf("%s: SPURIOUS counterexample for %s at %s (native replay: %s) replay=%s", vr.v.Entry, vr.v.Label, vr.v.Site, out, path))
+			perKeySpurious[key] = append(perKeySpurious[key], fmt.Sprintf("%s: SPURIOUS counterexample for %s at %s (native replay: %s) replay=%s", vr.v.Entry, vr.v.Label, vr.v.Site, out, path))
+		}
+	}
+	for key, sp := range perKeySpurious {
+		if perKeyConfirmed[key] == 0 {
+			inconclusive = append(inconclusive, sp[0])
+			if len(sp) > 1 {
+				inconclusive = append(inconclusive, fmt.Sprintf("(%d further candidates for the same assertion did not reproduce either)", len(sp)-1))
+			}
+		} else {
+			fmt.Printf("  note: %d other candidate(s) for %q did not reproduce natively (they depend on values of idealised primitives)\n", len(sp), key)
 		}
 	}
 	var knownHit []string
